@@ -365,8 +365,9 @@ def check(ex, ctx):
     if ex.outcome != "done":
         blocked = [(t.name, t.pending and t.pending[0]) for t in ex.th if t.started and not t.finished]
         return "%s: threads never end: %s" % (ex.outcome, blocked)
+    tolerate = cfg.get("tolerate_crash", ())
     for t in ex.th:
-        if t.crash is not None and not (t.name == "Crash" and "injected fault" in str(t.crash)):
+        if t.crash is not None and not (t.name == "Crash" and "injected fault" in str(t.crash)) and t.name not in tolerate:
             return "thread %s died with %r" % (t.name, t.crash)
     if getattr(ctx, "second", None) is not None:
         class _Ex:  # the second pipeline ran in the same execution
@@ -433,7 +434,7 @@ def check(ex, ctx):
                 **dict(SPLIT_VARIANTS[cfg["split"]], **cfg.get("split_extra", {})))
             if not cfg.get("hop") and (r.data if r is not None else b"") != frames:
                 return "joined-events file differs from split_and_join_with_silence()"
-    for rs in ctx.regsavers:
+    for rs in (ctx.regsavers if "RegionSaverWorker" not in tolerate else ()):
         tpl = os.path.join(ctx.dir, cfg.get("template", "ev_{id}.wav"))
         names = set()
         for i, d, s, e, du in exp:
@@ -642,6 +643,8 @@ def plan(prop, tier):
         # line-level pass: the stand-in for a race detector
         for p in (["A", "AaA"] if quick else ["A", "AaA", "AAAA"]):
             tasks.append((dict(kind="run", pattern=p, observers=["rec"], split="s0"), 0, 0, "line", 1, None))
+        tasks.append((dict(kind="run", pattern="A", observers=["print"], split="s0"), 0, 0, "line", 1, None))
+        tasks.append((dict(kind="run", pattern="Aa", observers=["rec", "print"], split="s0"), 0, 0, "line", 1, None))
         if not quick:
             tasks.append((dict(kind="run", pattern="A", observers=["rec"], split="s0"), 0, 0, "line", 2, None))
             tasks.append((dict(kind="run", pattern="AaA", observers=["rec", "rec"], split="s0"), 0, 0, "line", 1, None))
